@@ -267,8 +267,8 @@ def run(chk):
     enc = p.method(U + "version::Version", "encode")
     if chk.require("R4 encodings", "R4|Version::encode", enc, U, "Version::encode not found"):
         chk.touched(enc)
-        v = flow.simplify_term(flow.Terms(p, enc).place(0, (), enc.return_blocks()[0], "t"))
-        sc = segs_of(v)
+        v = N.norm(flow.Terms(p, enc).place(0, (), enc.return_blocks()[0], "t"))
+        sc = flow.expand_byte_calls(p, N, segs_of(v))   # (a private helper for the trailer is read through its value)
         first = sc[0]
         while isinstance(first, tuple) and first and first[0] == "call":
             first = first[2][0]
